@@ -884,4 +884,279 @@ example : ¬ RoundTrips { codeDecoder with code := rstripOne } installed
       [⟨none, 8, none, none, some "```\n\n```", some ""⟩] := by
   refine ⟨by decide, by decide⟩
 
+/-! ## The FORM of the flags
+
+`status=np.True_`, `iterations=1`, `include_internal='x'` … : the code tests `if flag:`, so the table is a function of
+the three truth values only, and the labels of the extra columns are the string constants, never the flag. -/
+
+/-- **export_depends_on_truthiness_only.**  Two flag triples of ANY forms with equal truthiness give the same table. -/
+theorem export_depends_on_truthiness_only (m : Store L α) (s i n s' i' n' : FlagForm)
+    (hs : truthy s = truthy s') (hi : truthy i = truthy i') (hn : truthy n = truthy n') :
+    modelTableF m s i n = modelTableF m s' i' n' := by
+  unfold modelTableF
+  rw [hs, hi, hn]
+
+/-- In particular every flag may be replaced by the plain bool `bool(flag)`. -/
+theorem export_eq_export_of_bool (m : Store L α) (s i n : FlagForm) :
+    modelTableF m s i n = modelTableF m (.bool (truthy s)) (.bool (truthy i)) (.bool (truthy n)) := rfl
+
+/-- The same with omitted keywords: only the value each argument resolves to matters. -/
+theorem export_args_depend_on_value_only (m : Store L α) (s i n s' i' n' : Option FlagForm)
+    (hs : argValue Generated.exportDefaultStatus s = argValue Generated.exportDefaultStatus s')
+    (hi : argValue Generated.exportDefaultIterations i = argValue Generated.exportDefaultIterations i')
+    (hn : argValue Generated.exportDefaultInternal n = argValue Generated.exportDefaultInternal n') :
+    modelTableA m s i n = modelTableA m s' i' n' := by
+  unfold modelTableA
+  rw [hs, hi, hn]
+
+/-- The column labels for flags of any form: the names, then the STRINGS `status` / `iterations`. -/
+theorem export_labels_any_form (m : Store L α) (s i n : FlagForm) (h : NamesOk m.names) :
+    (modelTableF m s i n).cols.map Prod.fst = modelColumns m.names (truthy n) (truthy s) (truthy i) :=
+  dataframe_columns m _ _ _ h
+
+/-- Non-vacuity: the truthy / falsy forms (a float is falsy only as ±0.0: NaN `0x7FF8…` and `-0.0` `0x8000…`). -/
+example : truthy (.npbool true) = true ∧ truthy (.int 1) = true ∧ truthy (.int (-2)) = true ∧
+    truthy (.float 4607182418800017408) = true ∧ truthy (.float 9221120237041090560) = true ∧ truthy (.str "x") = true ∧
+    truthy (.str "False") = true ∧
+    truthy (.npbool false) = false ∧ truthy (.int 0) = false ∧ truthy (.float 0) = false ∧
+    truthy (.float 9223372036854775808) = false ∧ truthy (.str "") = false ∧ truthy .none = false := by decide
+
+example : (modelTableF (L := Nat) (α := Nat) ⟨[0, 1], ["status", "iterations", "Y", "_h"], ["Y", "_h"],
+      fun k => if k = "Y" then [1, 2] else if k = "_h" then [3, 4] else if k = "status" then [5, 5] else [7, 7]⟩
+      (.npbool true) (.int 1) (.str "")).cols = [("Y", [1, 2]), ("status", [5, 5]), ("iterations", [7, 7])] := by decide
+
+/-- The linker export for flags of any form / omitted: equal values, equal dicts of tables (the linker's table and
+    every submodel's). -/
+theorem linker_export_depends_on_truthiness_only (name : K) (l : Store L α) (subs : List (K × Store L α))
+    (s i n s' i' n' : Option FlagForm)
+    (hs : argValue Generated.exportDefaultStatus s = argValue Generated.exportDefaultStatus s')
+    (hi : argValue Generated.exportDefaultIterations i = argValue Generated.exportDefaultIterations i')
+    (hn : argValue Generated.exportDefaultInternal n = argValue Generated.exportDefaultInternal n') :
+    linkerTablesA name l subs s i n = linkerTablesA name l subs s' i' n' := by
+  unfold linkerTablesA
+  rw [hs, hi, hn]
+
+/-- The labels a flag would turn into if it were taken for one (`df[flag] = …`): pandas shows `np.True_` / `1`. -/
+def flagLabel : FlagForm → String
+  | .npbool b => if b then "np.True_" else "np.False_"
+  | .int i => toString i
+  | .str s => s
+  | _ => "?"
+
+theorem identityAddCol_nonbool {V : Type} (labelOf : FlagForm → String) (f : FlagForm) (k : String) (v : List V)
+    (d : List (String × List V)) (hf : f ≠ .bool true) (ht : truthy f = true) :
+    identityAddCol labelOf f k v d = dictSet d (labelOf f) v := by
+  cases f with
+  | bool b =>
+    cases b
+    · simp [truthy] at ht
+    · exact absurd rfl hf
+  | npbool b => simp only [identityAddCol]; rw [if_pos ht]
+  | int j => simp only [identityAddCol]; rw [if_pos ht]
+  | float j => simp only [identityAddCol]; rw [if_pos ht]
+  | str j => simp only [identityAddCol]; rw [if_pos ht]
+  | none => simp [truthy] at ht
+
+theorem identityAddCol_false {V : Type} (labelOf : FlagForm → String) (k : String) (v : List V)
+    (d : List (String × List V)) : identityAddCol labelOf (.bool false) k v d = d := by
+  simp [identityAddCol, truthy]
+
+/-- **identity_test_breaks_export.**  An export that tests `flag is True` (and takes any other truthy flag for a
+    column label) differs from the code's on EVERY store that satisfies the guard, for every truthy `status` flag that
+    is not the object `True` — unless the label it makes up happens to be `'status'` itself. -/
+theorem identity_test_breaks_export (labelOf : FlagForm → String) (m : Store L α) (h : NamesOk m.names)
+    (f n : FlagForm) (ht : truthy f = true) (hf : f ≠ .bool true) (hl : labelOf f ≠ "status") :
+    identityTable labelOf m f (.bool false) n ≠ modelTableF m f (.bool false) n := by
+  intro e
+  have hs : "status" ∉ exportNames m.names (truthy n) := fun x => h.noStatus (exportNames_sub _ _ _ x)
+  have h1 := (dataframe_status m (truthy f) false (truthy n) h).1
+  have e2 : dictGet (identityTable labelOf m f (.bool false) n).cols "status" = some (m.data "status") := by
+    rw [e]; show dictGet (modelTable m (truthy f) false (truthy n)).cols "status" = _; rw [h1, ht]; rfl
+  have hbase : dictGet (dictOf m.data (exportNames m.names (truthy n)) []) "status" = none := by
+    rw [dictOf_fresh m.data _ [] (exportNames_nodup _ _ h.nodup) (by simp)]
+    simp only [List.nil_append]
+    exact dictGet_not_mem _ _ (by rw [keys_map_pair]; exact hs)
+  have e3 : dictGet (identityTable labelOf m f (.bool false) n).cols "status" = none := by
+    unfold identityTable
+    rw [identityAddCol_false, identityAddCol_nonbool labelOf f _ _ _ hf ht, dictGet_dictSet]
+    simp [hl, hbase]
+  rw [e3] at e2
+  cases e2
+
+/-- Non-vacuity (and what the identity test does with BOTH flags `np.True_`: one column for the two). -/
+example : (identityTable (L := Nat) (α := Nat) flagLabel ⟨[0], ["status", "iterations", "Y"], ["Y"],
+      fun k => if k = "Y" then [1] else if k = "status" then [5] else [7]⟩ (.npbool true) (.npbool true) (.bool false)).cols
+    = [("Y", [1]), ("np.True_", [7])] ∧
+    (modelTableF (L := Nat) (α := Nat) ⟨[0], ["status", "iterations", "Y"], ["Y"],
+      fun k => if k = "Y" then [1] else if k = "status" then [5] else [7]⟩ (.npbool true) (.npbool true) (.bool false)).cols
+    = [("Y", [1]), ("status", [5]), ("iterations", [7])] ∧
+    truthy (.npbool true) = true ∧ FlagForm.npbool true ≠ .bool true ∧ flagLabel (.npbool true) ≠ "status" := by decide
+
+/-- `from_dataframe(data, strict=…)`: only the truth value of `strict` matters; falsy / omitted = `fromTable`; and on
+    a table that holds columns of class variables only, `strict` makes no difference at all. -/
+theorem from_dataframe_strict_truthiness (cast : α → α) (dflt : Defaults α) (NAMES : List String)
+    (s s' : Option FlagForm) (t : Table L α) (h : argValue false s = argValue false s') :
+    fromTableStrict cast dflt NAMES s t = fromTableStrict cast dflt NAMES s' t := by
+  unfold fromTableStrict
+  rw [h]
+
+theorem from_dataframe_strict_falsy (cast : α → α) (dflt : Defaults α) (NAMES : List String)
+    (s : Option FlagForm) (t : Table L α) (h : argValue false s = false) :
+    fromTableStrict cast dflt NAMES s t = fromTable cast dflt NAMES t := by
+  unfold fromTableStrict
+  simp [h]
+
+theorem from_dataframe_strict_data_columns (cast : α → α) (dflt : Defaults α) (NAMES : List String)
+    (s : Option FlagForm) (t : Table L α) (h : ∀ c ∈ t.cols, c.1 ∈ NAMES) :
+    fromTableStrict cast dflt NAMES s t = fromTable cast dflt NAMES t := by
+  unfold fromTableStrict
+  have : t.cols.any (fun c => !(NAMES.contains c.1 || c.1 == defaultValueParam)) = false := by
+    rw [List.any_eq_false]
+    intro c hc
+    simp [h c hc]
+  rw [this]
+  simp
+
+example : fromTableStrict (L := Nat) (fun x : Nat => x) ⟨0, 7, 8⟩ ["Y"] (some (.npbool true))
+      ⟨[0], [("Y", [1]), ("status", [5])]⟩ = none ∧
+    (fromTableStrict (L := Nat) (fun x : Nat => x) ⟨0, 7, 8⟩ ["Y"] (some (.int 0))
+      ⟨[0], [("Y", [1]), ("status", [5])]⟩).map (fun m => m.data "Y") = some [1] := by decide
+
+/-! ## Extension mixins
+
+The export of an instance is a function of (names, series, span, flags): `modelExport m`.  There is no class in the
+model.  A class `class C(AliasMixin, TracerMixin, …, Base)` reaches the base export through the `to_dataframe` methods
+of its mixins in MRO order — each a `Wrapper` — so the class matters exactly as far as a wrapper changes what it
+hands on. -/
+
+/-- Wrappers that forward the three flags unchanged and return the table as it comes leave the export alone,
+    however many there are and in whatever order. -/
+theorem wrapChain_forwards (ws : List (Wrapper L α)) (base : Flags3 → Table L α) (h : ∀ w ∈ ws, w.Forwards) :
+    wrapChain ws base = base := by
+  induction ws with
+  | nil => rfl
+  | cons w ws ih =>
+    have hw := h w (by simp)
+    funext f
+    simp only [wrapChain, wrapExport]
+    rw [ih (fun w' hw' => h w' (by simp [hw'])), hw.1 f, hw.2]
+
+theorem mixinWrapper_forwards (repl : List (String × String)) (x : Mixin) :
+    (mixinWrapper (L := L) (α := α) false repl x).Forwards := by
+  cases x <;> exact ⟨fun _ => rfl, fun _ => rfl⟩
+
+/-- **mixins_do_not_change_export.**  For every list of mixins in every MRO order, every store and every flag triple:
+    `obj.to_dataframe(...)` of the extended class (aliases not requested) IS `model_to_dataframe(obj, ...)` — same
+    columns (underscore-prefixed variables included when requested), same cells. -/
+theorem mixins_do_not_change_export (mro : List Mixin) (repl : List (String × String)) (m : Store L α) (f : Flags3) :
+    classExport mro false repl m f = modelTable m f.status f.iterations f.includeInternal := by
+  unfold classExport
+  rw [wrapChain_forwards]
+  · rfl
+  · intro w hw
+    simp only [List.mem_map] at hw
+    obtain ⟨x, _, rfl⟩ := hw
+    exact mixinWrapper_forwards repl x
+
+/-- … hence the MRO order is irrelevant. -/
+theorem mixin_order_irrelevant (mro mro' : List Mixin) (repl : List (String × String)) (m : Store L α) (f : Flags3) :
+    classExport mro false repl m f = classExport mro' false repl m f := by
+  rw [mixins_do_not_change_export, mixins_do_not_change_export]
+
+example : (classExport (L := Nat) (α := Nat) [.alias, .tracer, .pandasIndex, .progressBar] false [("Y", "GDP")]
+      ⟨[0], ["status", "iterations", "Y", "_h", "trace"], ["Y", "_h"], fun k => if k = "Y" then [1] else [3]⟩
+      ⟨false, false, true⟩).cols = [("Y", [1]), ("_h", [3])] := by decide
+
+/-- `use_aliases=True`: labels only — the index and the cells of every column, in order, are those of the plain
+    export. -/
+theorem alias_export_renames_labels_only (mro : List Mixin) (repl : List (String × String)) (m : Store L α) (f : Flags3) :
+    (classExport mro true repl m f).index = (modelExport m f).index ∧
+    (classExport mro true repl m f).cols.map Prod.snd = (modelExport m f).cols.map Prod.snd := by
+  unfold classExport
+  induction mro with
+  | nil => exact ⟨rfl, rfl⟩
+  | cons x xs ih =>
+    cases x <;> simp only [List.map_cons, wrapChain, wrapExport, mixinWrapper, if_true] <;>
+      first
+        | exact ih
+        | (refine ⟨ih.1, ?_⟩
+           rw [← ih.2]
+           simp [renameCols, Function.comp_def])
+
+example : (classExport (L := Nat) (α := Nat) [.tracer, .alias] true [("Y", "GDP")]
+      ⟨[0], ["status", "iterations", "Y", "_h", "trace"], ["Y", "_h"], fun k => if k = "Y" then [1] else [3]⟩
+      ⟨false, false, true⟩).cols = [("GDP", [1]), ("_h", [3])] := by decide
+
+theorem exportNames_eq_iff (names : List String) :
+    exportNames names false = exportNames names true ↔ ∀ k ∈ names, isInternal k = false := by
+  unfold exportNames
+  simp only [Bool.false_eq_true, if_false, if_true]
+  rw [List.filter_eq_self]
+  simp
+
+/-- `include_internal` matters exactly on stores that have an underscore-prefixed variable. -/
+theorem internal_flag_matters_iff (m : Store L α) (s i : Bool) (h : NamesOk m.names) :
+    modelTable m s i false ≠ modelTable m s i true ↔ ∃ k, k ∈ m.names ∧ isInternal k = true := by
+  constructor
+  · intro hne
+    apply Classical.byContradiction
+    intro hno
+    apply hne
+    have hall : ∀ k ∈ m.names, isInternal k = false := by
+      intro k hk
+      cases hik : isInternal k
+      · rfl
+      · exact absurd ⟨k, hk, hik⟩ hno
+    unfold modelTable
+    rw [(exportNames_eq_iff m.names).mpr hall]
+  · rintro ⟨k, hk, hik⟩ e
+    have h1 := dataframe_columns m s i false h
+    have h2 := dataframe_columns m s i true h
+    rw [e, h2] at h1
+    have hmem : k ∈ modelColumns m.names true s i := by
+      unfold modelColumns; simp [exportNames, hk]
+    rw [h1] at hmem
+    have hs : k ≠ "status" := fun e => h.noStatus (e ▸ hk)
+    have hi : k ≠ "iterations" := fun e => h.noIterations (e ▸ hk)
+    unfold modelColumns at hmem
+    cases s <;> cases i <;> simp [mem_exportNames, hk, hs, hi, hik] at hmem
+
+/-- **wrapper_dropping_internal_differs_iff.**  The negation-style witness: a mixin whose `to_dataframe` does not pass
+    `include_internal` on (the base then takes its default) yields another table than `model_to_dataframe` for some
+    flags IF AND ONLY IF the instance has an underscore-prefixed variable — wherever it stands in the MRO below
+    forwarding wrappers. -/
+theorem wrapper_dropping_internal_differs_iff (dflt : Bool) (m : Store L α) (h : NamesOk m.names) :
+    (∃ f, wrapExport (dropsInternal dflt) (modelExport m) f ≠ modelExport m f) ↔
+      ∃ k, k ∈ m.names ∧ isInternal k = true := by
+  constructor
+  · rintro ⟨f, hf⟩
+    simp only [wrapExport, dropsInternal, modelExport] at hf
+    cases hd : dflt <;> cases hn : f.includeInternal <;> simp only [hd, hn] at hf
+    · exact absurd rfl hf
+    · exact (internal_flag_matters_iff m f.status f.iterations h).mp hf
+    · exact (internal_flag_matters_iff m f.status f.iterations h).mp (fun e => hf e.symm)
+    · exact absurd rfl hf
+  · intro hk
+    refine ⟨⟨true, true, !dflt⟩, ?_⟩
+    simp only [wrapExport, dropsInternal, modelExport]
+    cases dflt
+    · exact (internal_flag_matters_iff m true true h).mpr hk
+    · exact fun e => (internal_flag_matters_iff m true true h).mpr hk e.symm
+
+/-- The same below any number of forwarding wrappers (e.g. `class C(TracerMixin, BrokenAliasMixin, Base)`). -/
+theorem wrapChain_dropping_internal_differs_iff (ws : List (Wrapper L α)) (hws : ∀ w ∈ ws, w.Forwards) (dflt : Bool)
+    (m : Store L α) (h : NamesOk m.names) :
+    (∃ f, wrapChain ws (wrapExport (dropsInternal dflt) (modelExport m)) f ≠ modelExport m f) ↔
+      ∃ k, k ∈ m.names ∧ isInternal k = true := by
+  rw [wrapChain_forwards ws _ hws]
+  exact wrapper_dropping_internal_differs_iff dflt m h
+
+/-- Non-vacuity: with `_h` the dropping wrapper loses the column; without an underscore-prefixed name it is invisible. -/
+example : (wrapExport (L := Nat) (α := Nat) (dropsInternal false)
+      (modelExport ⟨[0], ["status", "iterations", "Y", "_h"], ["Y", "_h"], fun k => if k = "Y" then [1] else [3]⟩)
+      ⟨false, false, true⟩).cols = [("Y", [1])] ∧
+    (modelExport (L := Nat) (α := Nat) ⟨[0], ["status", "iterations", "Y", "_h"], ["Y", "_h"], fun k => if k = "Y" then [1] else [3]⟩
+      ⟨false, false, true⟩).cols = [("Y", [1]), ("_h", [3])] ∧
+    NamesOk ["Y", "_h"] := ⟨by decide, by decide, ⟨by decide, by decide, by decide⟩⟩
+
 end Fsic.C19
